@@ -334,11 +334,9 @@ theorem C02_total_curly (cfg : Config) (hk : cfg.router = .curly) (hwf : cfg.wfT
       rw [hps]; simp
 
 /-- **C02, CurlyRouter**: on checked templates without regex variables in root paths, hygienic media
-    lists and requests whose `Content-Length` header and field agree, the outcome is exactly what the
-    decision table says for a best-matching service -/
+    lists, the outcome is exactly what the decision table says for a best-matching service -/
 theorem C02_classify_curly_partial (E : ReEnv) (cfg : Config) (hk : cfg.router = .curly) (hwf : cfg.wfTemplates = true)
-    (hh : Spec.mediaHygiene cfg = true) (hr : Spec.noRootRegex cfg = true) (req : Req)
-    (hb : Spec.bodyCoherent req = true) :
+    (hh : Spec.mediaHygiene cfg = true) (hr : Spec.noRootRegex cfg = true) (req : Req) :
     Spec.c02Holds E cfg req (route E cfg req)
       (match route E cfg req with | .selected _ _ _ => 1 | _ => 0) = true := by
   unfold route routeTagged
@@ -359,7 +357,7 @@ theorem C02_classify_curly_partial (E : ReEnv) (cfg : Config) (hk : cfg.router =
       rw [hk] at this
       exact this
     obtain ⟨cands, hmem, hcase⟩ := Curly.curlyAfterSvc_cases E svc hread req
-    have hdc := detect_classify E .curly svc.built cands req hmem (fun r hr => C02.hygiene_route hh hsvc hr) hb
+    have hdc := detect_classify E .curly svc.built cands req hmem (fun r hr => C02.hygiene_route hh hsvc hr)
     cases hdr : detectRoute cands req with
     | error e =>
       obtain ⟨c, a⟩ := e
